@@ -40,14 +40,14 @@ type lexSSAModel struct {
 	loopThroughHelper map[*ssa.Function]bool
 	// skipWrappers: functions that run the skipper first and then loop over comments (walked in line)
 	skipWrappers map[*ssa.Function]bool
-	scanners map[*ssa.Function]string
-	hasLoop  map[*ssa.Function]bool
-	tokType  *types.Named
-	tokTypeI int // field indices of token.Token
-	tokLitI  int
-	tokLineI int
-	problems []string
-	cache    map[string][]*lexTokPath
+	scanners     map[*ssa.Function]string
+	hasLoop      map[*ssa.Function]bool
+	tokType      *types.Named
+	tokTypeI     int // field indices of token.Token
+	tokLitI      int
+	tokLineI     int
+	problems     []string
+	cache        map[string][]*lexTokPath
 }
 
 type lexTokPath struct {
